@@ -51,6 +51,27 @@ func runC04(c *Ctx, w *World, r *Report) {
 		if !(b2.HasHi && b2.Hi == -1) {
 			bad = "a path is emitted with p - to in " + b2.String() + "; the range ends exactly before to (exclusive)"
 		}
+		// the range tests compare whole path words: a comparison of truncated halves (uint32(p) < uint32(from)) orders
+		// the masks only, and the searching bits decide first
+		for _, cd := range fa.Conds(app.Block()) {
+			bo, ok := cd.V.(*ssa.BinOp)
+			if !ok {
+				continue
+			}
+			if _, isCmp := tokOp(bo.Op); !isCmp {
+				continue
+			}
+			for _, side := range []ssa.Value{bo.X, bo.Y} {
+				cv, isCv := side.(*ssa.Convert)
+				if !isCv || intWidth(cv.X.Type()) != 64 || intWidth(cv.Type()) >= 64 {
+					continue
+				}
+				root := stripConv(cv.X)
+				if root == stripConv(p) || root == ssa.Value(fn.Params[1]) || root == ssa.Value(fn.Params[2]) {
+					bad = "the range test at " + w.InstrPos(bo) + " compares a path word truncated to " + cv.Type().String() + ": numeric order of paths is the order of the whole 64-bit words (searching bits first, then the mask)"
+				}
+			}
+		}
 		// stored-level test. "tz" is kept as a linear form: the loop may count tz down (level = height - tz) or the
 		// level up (tz = height - level); the rules below only speak about height - level.
 		var tzL Lin
